@@ -179,6 +179,31 @@ class SuperProxy(object):
 COVERAGE = None          # set of (module, line) of interpreted statements when tools/coverage.py asks for it
 
 
+class _ClassBodyEnv(dict):
+    """local names of a class body while one of its assignments is evaluated: the members defined before that statement"""
+
+    def __init__(self, interp, cls, stmt):
+        dict.__init__(self)
+        self.interp, self.cls, self.stmt = interp, cls, stmt
+
+    def _member(self, name):
+        entries = self.cls.own_members().get(name) or []
+        earlier = [(k, n) for k, n in entries if getattr(n, 'lineno', 0) < self.stmt.lineno]
+        return earlier[-1] if earlier else None
+
+    def __contains__(self, name):
+        return dict.__contains__(self, name) or self._member(name) is not None
+
+    def __getitem__(self, name):
+        if dict.__contains__(self, name):
+            return dict.__getitem__(self, name)
+        kind, node = self._member(name)
+        if kind == 'classattr':
+            v = self.interp.class_attr_value(self.cls, node, name)
+            return v[1] if isinstance(v, tuple) and len(v) == 2 and v[0] is True else v
+        return self.interp.closure_for(self.cls.module, node, self.cls)
+
+
 class Frame(object):
     def __init__(self, module, parent=None, owner=None, fn=None):
         self.env = {}
@@ -354,11 +379,15 @@ class Interp(object):
         if isinstance(val, ast.Name) and val.id in owner.own_members():
             v = self.get_class_member(owner, val.id, via_instance=None, raw=True)
         else:
+            # the right hand side sees the names bound earlier in the class body (x, y = _f, _g and the like)
             fr = Frame(owner.module)
+            fr.env = _ClassBodyEnv(self, owner, node)
             v = self.eval(val, fr)
             if isinstance(node.targets[0], ast.Tuple):
                 names = [t.id for t in node.targets[0].elts]
                 v = list(v)[names.index(name)]
+                if isinstance(v, tuple) and len(v) == 2 and v[0] is True:
+                    v = v[1]
         cref.attr_cache[name] = v
         return v
 
@@ -464,6 +493,9 @@ class Interp(object):
         try:
             return getattr(obj, attr)
         except AttributeError:
+            if isinstance(obj, (Closure, BoundMethod)) and not attr.startswith('__'):
+                # a function object without that attribute (attributes are set by decorators): an AttributeError of the program
+                raise InterpRaise("'function' object has no attribute '%s'" % attr, 'AttributeError')
             if isinstance(obj, Arr) or hasattr(obj, 'is_elem_') or isinstance(obj, (Poly, Rat, Fr)) or \
                     type(obj).__module__.startswith('ndverif') or \
                     (callable(obj) and str(getattr(obj, '__module__', '')).startswith('ndverif')):
